@@ -85,3 +85,81 @@ func ruleVoteGrant() *Rule {
 		},
 	}
 }
+
+// raftFieldStore returns the Raft field written by in (a store through a field address of *Raft).
+func raftFieldStore(in ssa.Instruction) (*ssa.Store, string) {
+	s, ok := in.(*ssa.Store)
+	if !ok {
+		return nil, ""
+	}
+	fa, ok := s.Addr.(*ssa.FieldAddr)
+	if !ok || !isPtrToNamed(fa.X.Type(), "Raft") {
+		return nil, ""
+	}
+	return s, fieldOf(fa.X.Type(), fa.Field).Name()
+}
+
+// ruleSticky: C16 STICKY and C08/C16 PREVOTE-PURE.
+func ruleSticky() *Rule {
+	const id = "STICKY"
+	return &Rule{
+		ID: id,
+		Text: "In the RequestVote handler every write to a field of Raft, every StateStorage.SetState and every VoteGranted := true happens only after the stickiness gate was passed " +
+			"(¬lease.isValid() ∧ ¬(time.Since(lastContact) < electionTimeout), evaluated on the entry state), for prevotes and real votes alike; " +
+			"(PREVOTE-PURE) with Prevote set, no write to currentTerm, votedFor, state, lastContact, leaderID or operationManager and no SetState happens at all.",
+		Floor: 6,
+		Run: func(p *Program) []Obligation {
+			root := p.Func("(*Raft).RequestVote")
+			if root == nil {
+				return missing(id, "(*Raft).RequestVote")
+			}
+			lease := BoolAtom("leaseValid", "r.operationManager.leaderLease.isValid()").Hist()
+			since := CmpAtom("sinceContact?timeout", "time.Since(r.lastContact)", "r.options.electionTimeout").Hist()
+			prevote := BoolAtom("prevote", "p0.Prevote")
+			sp := NewSpace(lease, since, prevote)
+			a := NewAnalysis(p, sp)
+			granted := p.Field("RequestVoteResponse.VoteGranted")
+			matched := map[string]bool{}
+			a.Hook = func(a *Analysis, f *Frame, in ssa.Instruction, st State) State {
+				if s, name := raftFieldStore(in); s != nil {
+					n := instrOrdinal(in, func(x ssa.Instruction) bool { _, nm := raftFieldStore(x); return nm == name })
+					a.Observe("store Raft."+name+ordSuffix(n)+" in "+chainKey(f), f, in, st).Extra["field"] = name
+					return st
+				}
+				if s, fld := storeField(in); s != nil && fld == granted {
+					if b, ok := constBool(s.Val); ok && !b {
+						return st
+					}
+					a.Observe("store response.VoteGranted := true in "+chainKey(f), f, in, st).Extra["field"] = "VoteGranted"
+					return st
+				}
+				if iface, m, _ := invokeOf(in); iface == "StateStorage" && m == "SetState" {
+					a.Observe("call StateStorage.SetState in "+chainKey(f), f, in, st).Extra["field"] = "SetState"
+				}
+				if x, y, ok := p.condPair(f, in); ok {
+					matched[x+"|"+y] = true
+				}
+				return st
+			}
+			a.Run(root, nil)
+			pure := map[string]bool{"currentTerm": true, "votedFor": true, "state": true, "lastContact": true, "leaderID": true, "operationManager": true, "SetState": true}
+			out := evalObs(a, id, a.SortedObs(), func(o *Observation, pt int) bool {
+				gate := sp.Val(pt, 0) == 0 && sp.Val(pt, 1) != LT
+				if pure[o.Extra["field"]] {
+					return gate && sp.Val(pt, 2) == 0
+				}
+				return gate
+			}, nil, "stickiness gate passed (and no state change for a prevote)")
+			// the gate itself must exist: both atoms must have been matched to program terms
+			if len(lease.dep.Fields) == 0 {
+				out = append(out, Obligation{Rule: id, Construct: "gate: lease validity test in (*Raft).RequestVote", Verdict: Violated,
+					Detail: "no branch on the leader lease's validity (r.operationManager.leaderLease.isValid()) was found in the handler: a leader with a valid lease can be deposed by any vote request"})
+			}
+			if len(since.dep.Fields) == 0 {
+				out = append(out, Obligation{Rule: id, Construct: "gate: recent-contact test in (*Raft).RequestVote", Verdict: Violated,
+					Detail: "no branch comparing time.Since(r.lastContact) with r.options.electionTimeout was found in the handler"})
+			}
+			return out
+		},
+	}
+}
